@@ -779,6 +779,19 @@ func (w *world) snapshot() string {
 	return sb.String()
 }
 
+// snapshotBounded: the snapshot, or false when the reads do not return within two seconds (a lock is being held
+// by a writer that is parked between its sections)
+func (w *world) snapshotBounded() (string, bool) {
+	done := make(chan string, 1)
+	go func() { done <- w.snapshot() }()
+	select {
+	case s := <-done:
+		return s, true
+	case <-time.After(2 * time.Second):
+		return "", false
+	}
+}
+
 func sortedIDs[V any](c map[int]V) []int {
 	var ids []int
 	for id := range c {
